@@ -340,7 +340,7 @@ def check_read(ctx, vcf, sid, nid, min_depth, skip_somatic, got, prefix, feat, s
     s, nids = sel
     ff = ("depth" if min_depth else "nodepth") + "+" + ("skipsom" if skip_somatic else "keepsom")
     if isinstance(got, Exc):
-        ctx.violation(CLAUSE["rows"], f"{prefix}/raises/{got.key}/{feat}", expected="a table", observed=got, sub=sub)
+        ctx.violation(CLAUSE["rows"], f"{prefix}/raises/{got.key}/{feat_str(feat)}", expected="a table", observed=got, sub=sub)
         return None
     ctx.trace()
     cols, rows = table_rows(got)
@@ -360,12 +360,35 @@ def check_read(ctx, vcf, sid, nid, min_depth, skip_somatic, got, prefix, feat, s
     pf = "paired" if n is not None else "unpaired"
     seen = set()
     for cid, kpart, want, obs in probs:
-        key = f"{prefix}/{kpart}/{pf}/{ff}/{feat}"
+        key = read_key(prefix, cid, kpart, pf, ff, feat)
         if key in seen:
             continue
         seen.add(key)
         ctx.violation(CLAUSE[cid], key, expected=want, observed=obs, sub={**sub, "model_sample": s, "model_normal": n})
     return None
+
+
+def feat_str(feat):
+    return feat if isinstance(feat, str) else "/".join(str(feat[k]) for k in ("gt", "fmt", "kind") if k in feat)
+
+
+def read_key(prefix, cid, kpart, pf, ff, feat):
+    """Finding classifier: the failing clause plus only the input feature that clause depends on."""
+    if isinstance(feat, str):
+        feat = {"scope": feat}
+    scope = feat.get("scope")
+    parts = [prefix, kpart, pf]
+    if cid in ("rows",):
+        parts.append(ff)
+    if cid in ("start", "end", "rows") and "kind" in feat:
+        parts.append(feat["kind"])
+    if cid == "zygosity" and "gt" in feat:
+        parts.append(feat["gt"])
+    if cid in ("depth", "alt_count", "alt_freq") and "fmt" in feat:
+        parts.append(feat["fmt"])
+    if scope:
+        parts.append(scope)
+    return "/".join(parts)
 
 
 def do_read(ctx, path, sid, nid, min_depth, skip_somatic):
@@ -467,23 +490,31 @@ def expected_baf(snps, ranges, above_half, freq_of):
 def baf_feature(snps, ranges, above_half, freq_of, all_rows, tumor_boost):
     """Input-feature part of the finding key (from the model only)."""
     parts = []
+    if not all_rows:
+        parts.append("no-records")
     if above_half is not None:
         single_other = False
         for c, s0, e0 in ranges:
             inside = [freq_of(s) for s in snps if s["chrom"] == c and s["start"] < e0 and s["end_min"] > s0]
             if len(inside) == 1 and inside[0] is not None and ((inside[0] < 0.5) if above_half else (inside[0] > 0.5)):
                 single_other = True
-        parts.append("one-snp-range-on-other-side" if single_other else "no-lone-snp-on-other-side")
+        if single_other:
+            parts.append("side-requested+lone-snp-on-other-side")
     if tumor_boost:
         prefix = [s["i"] for s in all_rows[: len(snps)]] == [s["i"] for s in snps]
-        parts.append("hets-are-leading-rows" if prefix else "row-dropped-before-a-het")
-    n_chrom = len({r[0] for r in ranges})
-    parts.append("1-contig" if n_chrom == 1 else "multi-contig")
-    return "/".join(parts)
+        parts.append("tumor_boost" + ("" if prefix else "+row-dropped-before-a-het"))
+    return "/".join(parts) or "plain"
+
+
+_GA_CACHE = {}
 
 
 def ga_ranges(ranges):
-    return GA.from_rows([tuple(r) for r in ranges], columns=["chromosome", "start", "end"])
+    """The segment table as a GenomicArray (cached; a private copy of the frame is handed out each time)."""
+    key = tuple(tuple(r) for r in ranges)
+    if key not in _GA_CACHE:
+        _GA_CACHE[key] = GA.from_rows(list(key), columns=["chromosome", "start", "end"])
+    return _GA_CACHE[key].copy()
 
 
 BAF_CLAUSE = "the BAF of a range is the median of the heterozygous frequencies inside it mirrored to one side of 0.5, missing where there are none"
@@ -514,9 +545,7 @@ def check_baf(ctx, arr, name, all_rows, het_rows, paired, tables, variants, sub)
                 continue
             got = ctx.call(lambda: [py(x) for x in arr.baf_by_ranges(seg, **kw)])
             feat = baf_feature(het_rows, ranges, above_half, freq_of, all_rows, tb)
-            if not all_rows:
-                feat = "no-records/" + feat
-            cmp_vector(ctx, BAF_CLAUSE, f"baf_by_ranges/{name}/above_half={above_half}/tumor_boost={tb}/{feat}", adm, got, {**sub, **tab, **kw})
+            cmp_vector(ctx, BAF_CLAUSE, f"baf_by_ranges/{feat}", adm, got, {**sub, "array": name, **tab, **kw})
             for a in adm:
                 if a != M.OPEN:
                     nin = "nan" if any(isinstance(x, float) and math.isnan(x) for x in a) else "value"
@@ -527,13 +556,24 @@ def check_baf(ctx, arr, name, all_rows, het_rows, paired, tables, variants, sub)
     return hit
 
 
-def variants_for(tier_full):
-    def variants(tab):
-        if tab["layout"] == "whole" or tier_full:
-            return [(None, False), (True, False), (False, False), (None, True), (True, True), (False, True)]
-        return [(None, False)]
+ALL6 = [(None, False), (True, False), (False, False), (None, True), (True, True), (False, True)]
 
-    return variants
+
+def v_full(tab):
+    """every (above_half, tumor_boost) on the tables whose contig-2 layout is 'whole', the default elsewhere"""
+    return ALL6 if tab["layout"] == "whole" else [(None, False)]
+
+
+def v_boost(tab):
+    return [(None, False), (True, False), (False, False), (None, True)] if tab["layout"] == "whole" else [(None, False)]
+
+
+def v_default(tab):
+    return [(None, False)]
+
+
+def v_whole_default(tab):
+    return [(None, False)] if tab["layout"] == "whole" else []
 
 
 def check_vectors(ctx, arr, name, rows, paired, sub):
@@ -602,9 +642,10 @@ def check_het(ctx, vcf, path, sid, nid, min_depth, zf, tb, prefix, feat, sub):
         kw["tumor_boost"] = True
     got = ctx.call(lambda: cmdutil.load_het_snps(path, **kw))
     sub = {**sub, "load_het_snps": kw}
-    opts = f"zf={zf}/tumor_boost={tb}/" + ("depth" if min_depth else "nodepth")
+    opts = ("zygosity_freq" if zf is not None else "genotypes") + ("+tumor_boost" if tb else "")
+    fs = feat_str(feat)
     if isinstance(got, Exc):
-        ctx.violation(HET_CLAUSE, f"{prefix}/raises/{got.key}/{opts}/{feat}", expected="a table", observed=got, sub=sub)
+        ctx.violation(HET_CLAUSE, f"{prefix}/raises/{got.key}/{opts}", expected="a table", observed=got, sub=sub)
         return None
     cols, rows = table_rows(got)
     ctx.outcome(["het", cols, rows])
@@ -619,11 +660,11 @@ def check_het(ctx, vcf, path, sid, nid, min_depth, zf, tb, prefix, feat, sub):
         req, opt = M.filter_rows(exp, min_depth, True, paired)
         got_paired = "n_alt_freq" in cols
         if rows and got_paired != paired:
-            problems.append((f"{prefix}/pairing/{opts}/{feat}", {"paired": paired}, cols))
+            problems.append((f"{prefix}/pairing/{opts}", {"paired": paired}, cols))
             continue
         kmap = {rec_key(vcf["records"][exp[i]["rec"]]): i for i in req + opt}
         if any(k not in kmap for k in keys) or len(set(keys)) != len(keys):
-            problems.append((f"{prefix}/kept-set/unfiltered-or-duplicate/{opts}/{feat}", sorted(kmap), keys))
+            problems.append((f"{prefix}/kept-set/unfiltered-or-duplicate/{opts}/" + ("depth" if min_depth else "nodepth"), sorted(kmap), keys))
             continue
         got_set = frozenset(kmap[k] for k in keys)
         admissible, unique = [], True
@@ -636,7 +677,7 @@ def check_het(ctx, vcf, path, sid, nid, min_depth, zf, tb, prefix, feat, sub):
             admissible += outs
         unique = len(set(admissible)) == 1
         if got_set not in admissible:
-            problems.append((f"{prefix}/kept-set/{opts}/{feat}", [sorted(a) for a in dict.fromkeys(admissible)], sorted(got_set)))
+            problems.append((f"{prefix}/kept-set/{opts}/{'paired' if paired else 'unpaired'}/{fs}", [sorted(a) for a in dict.fromkeys(admissible)], sorted(got_set)))
             continue
         ctx.trace()
         # values stay attached to their records
@@ -648,13 +689,13 @@ def check_het(ctx, vcf, path, sid, nid, min_depth, zf, tb, prefix, feat, sub):
                 fields.append("alt_freq")
             for f in fields:
                 if f not in r or not M.value_ok(e[f], r[f]):
-                    bad = bad or (f"{prefix}/field/{f}/{opts}/{feat}", {"record": k, f: _show(e[f])}, {f: r.get(f)})
+                    bad = bad or (f"{prefix}/field/{f}/{opts}", {"record": k, f: _show(e[f])}, {f: r.get(f)})
             if tb:
                 t, nn = M._single(e["alt_freq"]), M._single(e["n_alt_freq"])
                 b = M.tumor_boost(t, nn) if t is not None and nn is not None else None
                 if b is not None and not close(b, r.get("alt_freq")):
                     gap = "row-dropped-before-a-kept-row" if _gap(vcf, set(req) | got_set, got_set) else "kept-rows-lead"
-                    bad = bad or (f"{prefix}/field/alt_freq-boosted/{opts}/{gap}/{feat}", {"record": k, "alt_freq": b, "tumour": t, "normal": nn}, {"alt_freq": r.get("alt_freq")})
+                    bad = bad or (f"{prefix}/field/alt_freq-boosted/{gap}", {"record": k, "alt_freq": b, "tumour": t, "normal": nn}, {"alt_freq": r.get("alt_freq")})
         if bad:
             problems.append(bad)
             continue
@@ -764,7 +805,7 @@ def run_record1(case, ctx, tmp):
         rec = mkrec("1", 101, kind, [{"gt": gt, "ad": ad, "dp": dp}], fmt, somatic=som, filt=filt, info_dp=idp)
         vcf = {"samples": ["S0"], "pedigree": [], "contigs": CONTIGS, "records": [rec]}
         M.write_vcf(path, vcf)
-        feat = f"{gt_class(gt)}/{fname}/{kind}"
+        feat = {"gt": gt_class(gt), "fmt": fname.split("/")[0] + ("+missing" if "." in fname.split("/")[1] else ""), "kind": kind}
         sub = {"vcf": vcf}
         for md, ss in FILTER_CONFIGS:
             got = do_read(ctx, path, None, None, md, ss)
@@ -773,8 +814,9 @@ def run_record1(case, ctx, tmp):
             ctx.state(("record1", gt, fname, som, filt, kind, md, ss), nontrivial=dropped)
             if r is not None:
                 ctx.stratum("read1-row-" + ("dropped" if dropped else "kept"))
-        for zf in (None, 0.25):
-            check_het(ctx, vcf, path, None, None, 20, zf, False, "load_het_snps1", feat, sub)
+        if filt == "PASS" or case.get("full"):
+            for zf in (None, 0.25):
+                check_het(ctx, vcf, path, None, None, 20, zf, False, "load_het_snps1", feat, sub)
         ctx.stratum("gt-" + gt_class(gt))
         ctx.stratum("kind-" + kind)
         ctx.stratum("filter-" + filt)
@@ -819,7 +861,7 @@ def run_record2(case, ctx, tmp):
             rec = mkrec("1", 101, "snv", [tc, nc], fmt, info_dp=idp)
             vcf = {"samples": ["T", "N"], "pedigree": [], "contigs": CONTIGS, "records": [rec]}
             M.write_vcf(path, vcf)
-            feat = f"{role}:{gt_class(gt)}/{':'.join(fmt)}/{name}"
+            feat = {"gt": gt_class(gt), "fmt": ":".join(fmt) + ("+missing" if "." in name else ""), "kind": "snv", "scope": "enumerated-" + ("tumour" if role == "t" else "normal")}
             sub = {"vcf": vcf}
             for md, ss in FILTER_CONFIGS[:2]:
                 got = do_read(ctx, path, "T", "N", md, ss)
@@ -857,32 +899,33 @@ def run_combo(case, ctx, tmp):
     idxs = case["recs"]
     path = os.path.join(tmp, "m.vcf")
     base_sub = {"records": idxs}
+    feat = {"scope": f"{len(idxs)}-records"}
+    genomic = sorted(idxs, key=lambda i: (CHROM_ORDER[slice_[i]["chrom"]], slice_[i]["pos"], i))
     # (1) every file order x selectors x filters: rows stay attached to their coordinates
     for order in file_orders(idxs):
         vcf = {"samples": ["T", "N"], "pedigree": [], "contigs": CONTIGS, "records": [slice_[i] for i in order]}
         M.write_vcf(path, vcf)
-        ofeat = "sorted-file" if order == sorted(order, key=lambda i: (CHROM_ORDER[slice_[i]["chrom"]], slice_[i]["pos"])) else "unsorted-file"
-        for sid, nid in COMBO_SELECTORS:
+        ofeat = "sorted-file" if order == genomic else "unsorted-file"
+        for sid, nid in COMBO_SELECTORS if order == list(idxs) else COMBO_SELECTORS[:2]:
             for md, ss in FILTER_CONFIGS:
                 got = do_read(ctx, path, sid, nid, md, ss)
                 sub = {**base_sub, "order": order, "sample_id": sid, "normal_id": nid, "min_depth": md, "skip_somatic": ss}
-                r = check_read(ctx, vcf, sid, nid, md, ss, got, "read", f"{len(idxs)}-records/{ofeat}", sub)
+                r = check_read(ctx, vcf, sid, nid, md, ss, got, "read", {"scope": f"{len(idxs)}-records/{ofeat}"}, sub)
                 nontrivial = r is not None and len(r[3]) < len(order)
                 ctx.state(("combo-read", order, sid, nid, md, ss), nontrivial=nontrivial or nid is not None)
                 ctx.stratum("read-" + ofeat)
                 if nontrivial:
                     ctx.stratum("read-filter-dropped-a-row")
-    # (2) the canonical (as listed) file: het selection, BAF, calls
+    # (2) the file in the listed order: het selection, BAF, calls
     vcf = {"samples": ["T", "N"], "pedigree": [], "contigs": CONTIGS, "records": [slice_[i] for i in idxs]}
     M.write_vcf(path, vcf)
     tables = segment_tables("thorough" if thorough else "quick")
-    variants = variants_for(False)
-    only_default = lambda tab: [(None, False)]  # noqa: E731
     for sid, nid in COMBO_SELECTORS:
         paired = nid is not None
+        swapped = (sid, nid) == ("N", "T")
         sub = {**base_sub, "sample_id": sid, "normal_id": nid}
         got = do_read(ctx, path, sid, nid, None, False)
-        r = check_read(ctx, vcf, sid, nid, None, False, got, "read", f"{len(idxs)}-records/canonical", sub)
+        r = check_read(ctx, vcf, sid, nid, None, False, got, "read", feat, sub)
         if r is not None:
             s, n, exp, kept = r
             rows = snp_table(vcf, exp, kept, paired)
@@ -891,18 +934,18 @@ def run_combo(case, ctx, tmp):
                 hets = None
             elif not hets and rows:
                 hets = None  # documented fall-back to all rows: not claimed
-            if (sid, nid) != ("N", "T"):
-                hit = check_baf(ctx, got, "read", rows, hets, paired, tables, variants, sub)
+            if not swapped:
+                hit = check_baf(ctx, got, "read", rows, hets, paired, tables, v_full if paired else v_default, sub)
                 ctx.state(("combo-baf-read", idxs, sid, nid), nontrivial=hit)
             check_vectors(ctx, got, "read", rows, paired, sub)
         for zf in (None, 0.25):
             for md in (20, None):
                 for tb in (False, True) if paired else (False,):
-                    if (sid, nid) == ("N", "T") and (md is None or tb):
+                    if swapped and (md is None or tb):
                         continue
-                    res = check_het(ctx, vcf, path, sid, nid, md, zf, tb, "load_het_snps", f"{len(idxs)}-records", sub)
+                    res = check_het(ctx, vcf, path, sid, nid, md, zf, tb, "load_het_snps", feat, sub)
                     ctx.state(("combo-het", idxs, sid, nid, zf, md, tb), nontrivial=res is not None and bool(res[2]))
-                    if res is None or (sid, nid) == ("N", "T") or md is None:
+                    if res is None or swapped or md is None:
                         continue
                     harr, exp, kept, filtered, is_het = res
                     hsub = {**sub, "zygosity_freq": zf, "load_tumor_boost": tb}
@@ -915,13 +958,13 @@ def run_combo(case, ctx, tmp):
                     claimed = hrows if (is_het or not kept) else None
                     if not kept:
                         all_rows = []
-                    default_only = tb or zf is not None
-                    hit = check_baf(ctx, harr, "het" + ("+boosted" if tb else "") + ("+zf" if zf is not None else ""), all_rows, claimed, paired and not tb,
-                                    tables, only_default if default_only else variants, hsub)
+                    plain = not tb and zf is None
+                    name = "het" + ("+boosted" if tb else "") + ("+zf" if zf is not None else "")
+                    variants = (v_boost if paired else v_default) if plain else v_whole_default
+                    hit = check_baf(ctx, harr, name, all_rows, claimed, paired and not tb, tables, variants, hsub)
                     ctx.state(("combo-baf-het", idxs, sid, nid, zf, tb), nontrivial=hit)
-                    if not default_only:
-                        if not tb:
-                            check_vectors(ctx, harr, "het", hrows, paired, hsub)
+                    if plain:
+                        check_vectors(ctx, harr, "het", hrows, paired, hsub)
                         check_calls(ctx, harr, claimed, paired, hsub, len(idxs))
     ctx.sample("combo", {"records": [{k: v for k, v in slice_[i].items()} for i in idxs]})
 
